@@ -749,45 +749,18 @@ theorem mem_tableSet {tbl : List Slot} {key : Val} {m : Int} {s : Slot} (hs : s 
   refine ⟨s', hs', ?_⟩
   split at e <;> (subst e; rfl)
 
-theorem Sat.tableRemove {c : Ctx} {need : List Nat} (key : Val) :
-    Sat c need (Handlers.modify (fun st => { st with table := tableRemove st.table key })) (fun _ => []) :=
-  Sat.modify _ (fun _ => rfl) (fun _ s hs => ⟨s, (List.mem_filter.mp hs).1, rfl⟩) (fun _ p hp => hp)
-
-theorem Sat.tableSet {c : Ctx} {need : List Nat} (key : Val) (m : Int) :
-    Sat c need (Handlers.modify (fun st => { st with table := tableSet st.table key m })) (fun _ => []) :=
-  Sat.modify _ (fun _ => rfl) (fun _ _ hs => mem_tableSet hs) (fun _ p hp => hp)
-
-theorem Sat.decrefBy {c : Ctx} {need : List Nat} (key : Val) (cnt n : Int) : Sat c need (decrefBy key cnt n) PV.objs := by
-  unfold Handlers.decrefBy
-  refine Sat.bind (Q1 := fun _ => []) ?_ (fun _ => Sat.pure _ (by simp [PV.objs]))
-  refine Sat.modify _ (fun _ => rfl) (fun st s hs => ?_) (fun _ p hp => hp)
-  by_cases hlt : cnt < n
-  · simp only [hlt, if_true] at hs; exact ⟨s, (List.mem_filter.mp hs).1, rfl⟩
-  · simp only [hlt, if_false] at hs; exact mem_tableSet hs
-
-theorem Sat.decrefOpaque {c : Ctx} {need : List Nat} (key : Val) (r : PV) : Sat c need (decrefOpaque key r) PV.objs := by
-  unfold Handlers.decrefOpaque
-  split
-  · exact Sat.bind (Sat.tableRemove key) (fun _ => Sat.pure _ (by simp [PV.objs]))
-  · exact Sat.bind (Sat.tableSet key _) (fun _ => Sat.pure _ (by simp [PV.objs]))
-  · exact Sat.throwE _
-
-theorem Sat.decref {c : Ctx} (hA : AwaitOK c) {need : List Nat} (key : Val) (count : PV)
-    (hn : ∀ o ∈ count.objs, o ∈ need) : Sat c need (decref key count) PV.objs := by
+theorem Sat.decref {c : Ctx} {need : List Nat} (key : Val) (n : Int) : Sat c need (decref key n) PV.objs := by
   unfold Handlers.decref
   refine Sat.bind_getSt (fun st => ?_)
   cases lookupSlot st.table key with
   | none => exact Sat.throwE _
   | some s =>
     simp only
-    split
-    · exact Sat.decrefBy _ _ _
-    · exact Sat.decrefBy _ _ _
-    · exact Sat.bind (Sat.prim hA _ rfl (by mem_tac)) (fun r => Sat.decrefOpaque key r)
-    · exact Sat.bind (Sat.prim hA _ rfl (by mem_tac)) (fun r => Sat.decrefOpaque key r)
-    · exact Sat.bind (Sat.prim hA _ rfl (by mem_tac)) (fun r => Sat.decrefOpaque key r)
-    · exact Sat.throwE _
-
+    refine Sat.bind (Q1 := fun _ => []) ?_ (fun _ => Sat.pure _ (by simp [PV.objs]))
+    refine Sat.modify _ (fun _ => rfl) (fun st' s' hs => ?_) (fun _ _ hp => hp)
+    by_cases hlt : s.cnt < n
+    · simp only [hlt, if_true] at hs; exact ⟨s', (List.mem_filter.mp hs).1, rfl⟩
+    · simp only [hlt, if_false] at hs; exact mem_tableSet hs
 
 /-! ### the handlers -/
 
@@ -823,10 +796,12 @@ theorem hGetroot_sat (as : List PV) : Sat c (PV.objsL as) (hGetroot as) PV.objs 
 theorem hDelCore_sat {need : List Nat} (obj count : PV) (hn : ∀ o ∈ obj.objs ++ count.objs, o ∈ need) :
     Sat c need (hDelCore obj count) PV.objs := by
   unfold hDelCore
-  refine Sat.bind (Sat.prim hA _ rfl (by mem_tac)) (fun k => ?_)
-  cases k with
-  | imm key => exact Sat.decref hA _ _ (by mem_tac)
-  | _ => exact Sat.throwE _
+  split
+  · refine Sat.bind (Sat.prim hA _ rfl (by mem_tac)) (fun k => ?_)
+    cases k with
+    | imm key => exact Sat.decref _ _
+    | _ => exact Sat.throwE _
+  · exact Sat.throwE _
 
 theorem hDel_sat (as : List PV) : Sat c (PV.objsL as) (hDel as) PV.objs := by
   unfold hDel
@@ -873,11 +848,16 @@ theorem hCmp_sat (as : List PV) : Sat c (PV.objsL as) (hCmp as) PV.objs := by
   · exact hCmpCore_sat hA _ _ _ (by mem_tac)
   · exact Sat.throwE _
 
+theorem callChecked_sat {need : List Nat} (o a kw : PV) (hn : ∀ x ∈ o.objs ++ a.objs ++ kw.objs, x ∈ need) :
+    Sat c need (callChecked o a kw) PV.objs := by
+  unfold callChecked
+  exact Sat.ite (fun _ => Sat.prim hA _ rfl (by mem_tac)) (fun _ => Sat.throwE _)
+
 theorem hCall_sat (as : List PV) : Sat c (PV.objsL as) (hCall as) PV.objs := by
   unfold hCall
   split
-  · exact Sat.prim hA _ rfl (by mem_tac)
-  · exact Sat.prim hA _ rfl (by mem_tac)
+  · exact callChecked_sat hA _ _ _ (by mem_tac)
+  · exact callChecked_sat hA _ _ _ (by mem_tac)
   · exact Sat.throwE _
 
 theorem hGetattr_sat (as : List PV) : Sat c (PV.objsL as) (hGetattr as) PV.objs := by
@@ -902,7 +882,7 @@ theorem hCallattrCore_sat {need : List Nat} (o n a kw : PV) (hn : ∀ x ∈ o.ob
     Sat c need (hCallattrCore o n a kw) PV.objs := by
   unfold hCallattrCore
   refine Sat.bind (Sat.accessAttr hA _ _ _ _ (by mem_tac)) (fun f => ?_)
-  exact Sat.prim hA _ rfl (by mem_tac)
+  exact callChecked_sat hA _ _ _ (by mem_tac)
 
 theorem hCallattr_sat (as : List PV) : Sat c (PV.objsL as) (hCallattr as) PV.objs := by
   unfold hCallattr
